@@ -60,7 +60,7 @@ ASSUME = {
  "C11": ["parser caches (cold/warm) are outside the model; observed only"],
  "C12": ["calls on private evaluator state are atomic steps in the model; Go-memory-model races are only observed with the race detector"],
  "C13": ["model values are immutable: aliasing writes are caught only by the deep-snapshot correspondence"],
- "C15": ["since round 4 C15_sentences_generated needs no hypothesis about names, numbers or string literals: for EVERY sentence whose integer literals carry no sign and no exponent every rendering of its tree reads back as that tree (string literals are closed by theorem string_tokens_closed, which depends on the syntactic form of the STRING rule in the regenerated table and falls back to the per-tree form below when the grammar file is rewritten)", "character-level invariance for whole rules is a theorem (C15_render: every rendering, under every choice of the free spellings, of a well-formed tree is read back as that tree) for trees that are well-formed in the decidable sense `wf`: every name / literal text / connective in the tree is a canonical token of its kind for the regenerated table, string literals are closed, right operands are primaries, integer literals carry no sign and no exponent; for signed / exponent integers C15_char_level3 gives the same under decidable conditions on neighbouring tokens; `wf` itself is checked per tree (kernel-evaluated instances), and the engine's agreement with it is the metamorphic correspondence"],
+ "C15": ["C15_sentences_generated has no hypothesis about the sentence: for EVERY rule text the grammar accepts - names, numbers, string literals, negative integers and integers with exponents included - every rendering of its tree (any spelling of not and of the operators, optional blanks, newlines, comma blanks) reads back as that tree. What it uses of the table are facts proved on every run for the table regenerated from JsonQuery.g4: adj_separated_all, int_follow, spell_table (kernel evaluation), string_tokens_closed and signed_ok (these two depend on the syntactic form of the STRING, INT, DOUBLE and VERSION rules in the regenerated table; when the grammar file is rewritten equivalently they may stop checking and the statement falls back to the per-tree form below - never an alarm by itself)", "per-tree form (C15_render): every rendering, under every choice of the free spellings, of a tree that is well-formed in the decidable sense `wf` (every name / literal text / connective is a canonical token of its kind for the regenerated table, string literals closed, right operands primaries) is read back as that tree, given SignedOK of the table; `wf` is checked per tree (kernel-evaluated instances), and the engine's agreement with the model's lexer and parser is the metamorphic correspondence"],
  "C16": ["convertible literals; object-shaped paths (calls ended by a recovered panic are covered since repair D10)"],
  "C19": ["values attached with Set are abstracted to their JSON rendering by encoding/json (or 'not encodable')"],
  "C20": ["conformance of the generated Go lexer/parser is differential (tokens, accept/reject, tree shape), not a theorem"],
@@ -68,7 +68,7 @@ ASSUME = {
 # proof modules that depend on the SYNTACTIC form of a regenerated table (not only on its language): when the grammar
 # file is rewritten equivalently they may stop checking although nothing is wrong; then the statement falls back to its
 # per-token form and the check says so (never an alarm by itself)
-O["C15"]["soft_theorems"] = {"RulesModel.Proofs.C15StringClosed": ["Rules.StrClosed.str_prefix_free", "Rules.StrClosed.string_tokens_closed", "Rules.Render.C15_sentences_generated", "Rules.Render.C15_sentences_generated_process"]}
+O["C15"]["soft_theorems"] = {"RulesModel.Proofs.C15SignedTable": ["Rules.Signed.digits_dot", "Rules.Signed.signed_ok"], "RulesModel.Proofs.C15StringClosed": ["Rules.StrClosed.str_prefix_free", "Rules.StrClosed.string_tokens_closed", "Rules.Render.table_ok", "Rules.Render.C15_render_all", "Rules.Render.C15_sentences_generated", "Rules.Render.C15_sentences_generated_process"]}
 for pid, o in O.items():
     o["assumptions"] = ASSUME["all"] + ASSUME.get(pid, [])
     if not EXTRA.get(pid):
